@@ -21,11 +21,20 @@ type NCAuth struct {
 	HelloAt     int // emitted-byte offset at which the post-login stream starts (-1: not yet)
 	loggedIn    bool
 	buf         []byte
+	next        func([]byte) // what handles the client's bytes once logged in
 }
 
 func NewNCAuth(s *NCServer) *NCAuth {
 	a := &NCAuth{NCServer: s, SSHArgs: &transport.SSHArgs{}, PromptText: []byte("Password: "), HelloAt: -1}
+	a.next = s.onWrite
 	s.Pipe.OnWrite = a.onWrite
+	return a
+}
+
+// NewNCAuthOver puts the login in front of a C08Server (per-request echo modes after the login).
+func NewNCAuthOver(x *C08Server) *NCAuth {
+	a := NewNCAuth(x.NCServer)
+	a.next = x.onWrite
 	return a
 }
 
@@ -57,7 +66,7 @@ func (a *NCAuth) Start() {
 
 func (a *NCAuth) onWrite(b []byte) {
 	if a.loggedIn {
-		a.NCServer.onWrite(b)
+		a.next(b)
 		return
 	}
 	a.buf = append(a.buf, b...)
@@ -68,7 +77,7 @@ func (a *NCAuth) onWrite(b []byte) {
 		a.loggedIn = true
 		a.emitHello()
 		if len(rest) > 0 {
-			a.NCServer.onWrite(rest)
+			a.next(rest)
 		}
 	}
 }
